@@ -59,7 +59,9 @@ CheckInvMod(e) ==
                        /\ "k" \in DOMAIN e.w /\ Mul(a, x) = Add(Mul(e.w.k, m), One)
                   ELSE \/ Lt(m, <<2>>)
                        \/ /\ "c" \in DOMAIN e.w /\ Gt(e.w.c, One)
-                          /\ Mul(e.w.c, e.w.a1) = a /\ Mul(e.w.c, e.w.m1) = m ]
+                          /\ Mul(e.w.c, e.w.a1) = a /\ Mul(e.w.c, e.w.m1) = m,
+       \* the free function ruint::algorithms::inv_mod: same arguments, same answer (the inverse below m is unique)
+       alg_inv |-> Has(e, "inv") /\ Eq(e, "alg_inv", e.inv) ]
 
 \* ---- C11 (Uint methods) --------------------------------------------------
 (* r = x * R^-1 mod m, R = 2^(64N):  r < m and r*R = x + k*m for the signed *)
@@ -99,7 +101,14 @@ CheckGcd(e) ==
        lcm |-> gok /\ Eq(e, "lcm", IF Lt2(l, n) THEN Some(l) ELSE None),
        ext |-> /\ gok /\ Has(e, "ext") /\ xg[1] = e.gcd
                /\ Lt2(xg[2], n) /\ Lt2(xg[3], n)
-               /\ IF xg[4] THEN WrapSub(ax, by, n) = xg[1] ELSE WrapSub(by, ax, n) = xg[1] ]
+               /\ IF xg[4] THEN WrapSub(ax, by, n) = xg[1] ELSE WrapSub(by, ax, n) = xg[1],
+       \* the free functions ruint::algorithms::{gcd, gcd_extended}: the gcd is unique; the extended form must satisfy the same
+       \* identity (its cofactors are not unique, so it is checked on its own, not against the method)
+       alg_gcd |-> Has(e, "gcd") /\ Eq(e, "alg_gcd", e.gcd),
+       alg_ext |-> /\ Has(e, "alg_ext") /\ Has(e, "gcd") /\ e.alg_ext[1] = e.gcd
+                   /\ Lt2(e.alg_ext[2], n) /\ Lt2(e.alg_ext[3], n)
+                   /\ LET ax2 == Mod2(Mul(a, e.alg_ext[2]), n)  by2 == Mod2(Mul(b, e.alg_ext[3]), n)
+                      IN IF e.alg_ext[4] THEN WrapSub(ax2, by2, n) = e.alg_ext[1] ELSE WrapSub(by2, ax2, n) = e.alg_ext[1] ]
 
 \* ---- C13 ---------------------------------------------------------------
 \* a^e mod 2^n, e a BigNat (right-to-left bits are not needed: left-to-right, truncating)
